@@ -7,7 +7,10 @@ Writes notes/regression.txt."""
 import argparse, json, os, re, subprocess, sys
 from concurrent.futures import ThreadPoolExecutor
 ROOT = os.path.dirname(os.path.dirname(os.path.abspath(__file__)))
-ap = argparse.ArgumentParser(); ap.add_argument("--slots", type=int, default=4); a = ap.parse_args()
+ap = argparse.ArgumentParser(); ap.add_argument("--slots", type=int, default=4)
+ap.add_argument("--head", action="store_true", help="run the committed /verif (mutant_run --head)")
+ap.add_argument("--only", default="", help="comma-separated property ids: only seeds/refactors concerning them")
+a = ap.parse_args()
 jobs = []
 for d in sorted(os.listdir(os.path.join(ROOT, "seeded"))):
     m = os.path.join(ROOT, "seeded", d, "meta.json")
@@ -18,10 +21,14 @@ for d in sorted(os.listdir(os.path.join(ROOT, "refactors"))):
     if os.path.exists(p):
         ids = subprocess.run([sys.executable, os.path.join(ROOT, "tools", "anchored_ids.py"), p], text=True, stdout=subprocess.PIPE).stdout.strip()
         jobs.append(("refactor", d, p, ids, 0))
+if a.only:
+    want_ids = set(a.only.split(","))
+    jobs = [(k, n, p, ",".join(i for i in ids.split(",") if i in want_ids), w) for k, n, p, ids, w in jobs]
+    jobs = [j for j in jobs if j[3]]
 def run(slot, chunk):
     out = []
     for kind, name, patch, ids, want in chunk:
-        r = subprocess.run([sys.executable, os.path.join(ROOT, "tools", "mutant_run.py"), "--patch", patch, "--ids", ids, "--keep"],
+        r = subprocess.run([sys.executable, os.path.join(ROOT, "tools", "mutant_run.py"), "--patch", patch, "--ids", ids, "--keep"] + (["--head"] if a.head else []),
                            env=dict(os.environ, VM_SLOT=f"_r{slot}"), text=True, stdout=subprocess.PIPE, stderr=subprocess.STDOUT)
         codes = re.findall(r"^== (\S+): exit (\d+)", r.stdout, re.M)
         nf = "no-failing-input-found" in r.stdout
